@@ -423,7 +423,14 @@ def callbacks_oracle(obs, x, expect_no_start=False):
         cancelled_early = bool(cancel_ns) and (not q or min(cancel_ns) < q[0]['n'])
         if len(q) > 1:
             out.append(V(f'{x.label}/{s.name}: on_queued ran {len(q)} times', **mech, sym='on_queued-multi'))
-        if len(q) == 0:
+        queued_raised = [r for r in obs.world.director.raised
+                         if r['key'].startswith(x.label + '/cb:on_queued') and f':{s.name}#' not in r['key']]
+        if len(q) == 0 and queued_raised:
+            # an earlier subscriber's on_queued raised: the transfer fails before starting and the
+            # remaining on_queued callbacks are not run; then no request may have been issued
+            if first_s3 is not None:
+                out.append(V(f'{x.label}/{s.name}: S3 requests were issued although on_queued failed', **mech, sym='s3-after-queued-failure'))
+        elif len(q) == 0:
             if not cancelled_early and x.outcome is not None:
                 out.append(V(f'{x.label}/{s.name}: on_queued never ran', **mech, sym='on_queued-missing'))
             elif first_s3 is not None:
